@@ -98,6 +98,7 @@ func VH_distinct_Stream() {
 	vCover("stream-done")
 	// Reset restores the exact regime
 	c.Reset()
+	c.rng = src // (Reset may legitimately rebuild the counter; keep the symbolic source installed)
 	vAssert(c.Len() == 0 && c.Count() == 0, "Reset empties the counter")
 	vAssert(vK(c.p) == 0, "Reset restores probability one")
 	d0 := src.draws
